@@ -48,7 +48,7 @@ func main() {
 		// Floors: about 1/5 of what the quick tier measures at seed 1 (the
 		// enumerations are deterministic, their floors sit just below the exact count).
 		Floors: map[string]int64{
-			"schedules":             2000,
+			"schedules":             1300,
 			"random_programs":       2000,
 			"sys_interleavings":     3000,
 			"sys_programs":          4000,
@@ -92,7 +92,7 @@ func body(w *run.Worker) {
 	stalls := 0
 	tooManyStalls := func() bool { return stalls >= 8 }
 
-	w.Cases("sched", w.N(2400, 120000), func(c *run.Case) {
+	w.Cases("sched", w.N(1600, 120000), func(c *run.Case) {
 		if tooManyStalls() {
 			w.Count("cases_skipped_after_stalls", 1)
 			return
